@@ -137,9 +137,52 @@ Qed.
    update / reset refine ustep / bstep / op_reset of the hand model at that node (and rejects the node classes that the model
    excludes), i.e. the dispatch "node class -> operation class -> method" of OnlineNamed.v is the one of the code ---- *)
 From RV Require Import OnlineVisitorGen OnlineVisitorGenCorrect.
-Theorem C02_generated_monitor : onlinevisitor_gen_statement.
+(* per node class (the lemma the tree induction rests on) *)
+Theorem C02_generated_monitor_classes : onlinevisitor_gen_statement.
 Proof. exact @onlinevisitor_gen_refines. Qed.
+Print Assumptions C02_generated_monitor_classes.
+
+(* the whole generated monitor: on a well-formed specification without future operators, with ordered bounds, whose bounds
+   time_unit_transformer converts as the model's bnd says, the generated set_ast succeeds, and len generated update() calls (the
+   construction visitor, then the update visitor with its `visited` memo over the forest, `rob[len(rob) - 1]`) return exactly the
+   verdicts of the hand monitor keyed by node name ... *)
+Theorem C02_generated_monitor :
+  forall (VS : Val) (AR : Arith VS) (vidx : string -> string -> nat) (cval : string -> V) (bnd : bound -> bound -> nat * nat)
+         (tut : bound -> bound -> option (Z * Z)) (F : list node) (w : trace) (vobjs : nat -> string -> string -> option V) (len : nat),
+    F <> [] ->
+    (forall x, In x F -> nwf x = true /\ past_only (sem vidx cval bnd x) = true /\ wf_bounds (sem vidx cval bnd x) = true) ->
+    (forall a, DN F a -> tut_ok bnd tut a) ->
+    (forall k v f, vobjs k v f = Some (sig w (vidx v f) k)) ->
+    exists gd0, gen_set_ast tut F = Some gd0 /\
+    exists gd1, gen_run AR cval vobjs F gd0 0 len
+                = Some (gd1, snd (nmon_run AR pk0 vidx cval bnd F (ndict_init vidx cval bnd F) w 0 len)).
+Proof. exact @gen_monitor_refines. Qed.
 Print Assumptions C02_generated_monitor.
+
+(* ... hence the robustness of the last assertion at samples 0 .. len-1 (with C02_online_named) *)
+Theorem C02_generated_monitor_rho :
+  forall (VS : Val) (AR : Arith VS) (vidx : string -> string -> nat) (cval : string -> V) (bnd : bound -> bound -> nat * nat)
+         (tut : bound -> bound -> option (Z * Z)) (F : list node) (w : trace) (n : nat) (vobjs : nat -> string -> string -> option V) (len : nat),
+    F <> [] ->
+    (forall x, In x F -> nwf x = true /\ past_only (sem vidx cval bnd x) = true /\ wf_bounds (sem vidx cval bnd x) = true) ->
+    (forall a, DN F a -> tut_ok bnd tut a) ->
+    (forall k v f, vobjs k v f = Some (sig w (vidx v f) k)) ->
+    exists gd0 gd1, gen_set_ast tut F = Some gd0 /\
+      gen_run AR cval vobjs F gd0 0 len = Some (gd1, tab (rho AR pk0 (sem vidx cval bnd (last F (NConst EmptyString))) w n) len).
+Proof.
+  intros VS AR vidx cval bnd tut F w n vobjs len Hne HF Ht Hv.
+  destruct (gen_monitor_refines AR vidx cval bnd tut F w vobjs len Hne HF Ht Hv) as (gd0 & E0 & gd1 & E1).
+  exists gd0, gd1. split; [exact E0|]. rewrite E1. rewrite (named_online_correct AR pk0 vidx cval bnd w n F len Hne HF). reflexivity.
+Qed.
+Print Assumptions C02_generated_monitor_rho.
+
+(* a rejected specification: a node class the online monitor does not implement anywhere in a root makes set_ast raise *)
+Theorem C02_generated_monitor_rejects :
+  forall (VS : Val) (vidx : string -> string -> nat) (cval : string -> V) (bnd : bound -> bound -> nat * nat)
+         (tut : bound -> bound -> option (Z * Z)) (x : node),
+    past_only (sem vidx cval bnd x) = false -> forall gd, gen_construct tut x gd = None.
+Proof. intros. eapply gen_construct_rejects. eassumption. Qed.
+Print Assumptions C02_generated_monitor_rejects.
 
 (* ... and on the specification of C02_named_nonvacuous (a shared sub-formula: the `visited` memo is hit; a bounded operator with
    units) the generated set_ast / update run end to end: the same five verdicts as the hand monitor, also after the generated reset *)
